@@ -323,7 +323,7 @@ func (g *Gen) shadowApply(m *Model, sh *MState, ti *TxInfo, h int64, P *DParams,
 		}
 		return
 	}
-	out := &stepOut{Burned: new(big.Int), Minted: new(big.Int)}
+	out := &stepOut{Burned: new(big.Int), Minted: new(big.Int), Ambiguous: map[string]bool{}}
 	resp := &abci.ResponseDeliverTx{Code: 0, GasWanted: int64(ti.Tx.Gas), GasUsed: int64(ti.Tx.Gas)}
 	m.applyTx(sh, ti, resp, h, P, price, lastVals, new(big.Int), out, 0)
 }
